@@ -2815,7 +2815,7 @@ func hrWildcardIsAWholePart(w *World, r *Report, rule string) {
 
 // hrEveryRunResultParses: each run result the engine writes into the access log is read back.
 func hrEveryRunResultParses(w *World, r *Report, rule string) {
-	for _, e := range []struct{ fn, typ string }{{"ParseRemedyRespRunResult", "RemedyRespRunResult"}} {
+	for _, e := range []struct{ fn, typ string }{{"ParseRemedyRespRunResult", "RemedyRespRunResult"}, {"ParseRemedyReqRunResult", "RemedyReqRunResult"}} {
 		f := w.Fn("lunar/shared-model/actions", e.fn)
 		named := w.Named("lunar/shared-model/actions", e.typ)
 		if f == nil || named == nil {
@@ -3130,11 +3130,12 @@ func hrHealthyIsConjunction(w *World, r *Report, rule string) {
 		r.Undec(rule, "areSPOEConnectionsHealthy", token.NoPos, "function not found")
 		return
 	}
+	// the two comparisons of a statistic with its configured value (not the error checks of reading that value)
 	isRate := func(a string) bool {
-		return strings.Contains(a, "SessionRate") && strings.Contains(a, "HealthySessionRate") && strings.Contains(a, " == ")
+		return strings.Contains(a, ".SessionRate") && strings.Contains(a, "HealthySessionRate()#0") && strings.Contains(a, " == ")
 	}
 	isLast := func(a string) bool {
-		return strings.Contains(a, "LastSession") && strings.Contains(a, "HealthyMaxLastSession") && strings.Contains(a, " < ")
+		return strings.Contains(a, ".LastSession") && strings.Contains(a, "HealthyMaxLastSession()#0") && strings.Contains(a, " < ")
 	}
 	nT, nF, ok := 0, 0, true
 	for _, c := range decisionOf(f, 0) {
